@@ -1,6 +1,7 @@
 package main
 
 import (
+	"math"
 	"bytes"
 	"fmt"
 	"hash/fnv"
@@ -210,9 +211,11 @@ func hisCase(mode string, seed uint64, stat func(string)) *hisFile {
 	case "osr", "osrc":
 		// an object-stream member whose value is an indirect reference.  "osr": white space of every
 		// kind between the tokens, leading zeros (up to six digits), a sign on the object number;
-		// "osrc": spellings which the other reference readers of the library accept but the
-		// look-ahead of getFromObjStm (444f7d4) does not: a comment between the tokens, a signed
-		// generation, a generation of more than six digits
+		// "osrc": the spellings which the look-ahead of 444f7d4 (a 64-byte window, six digits)
+		// missed and scanner.readReferenceTail (7ec872d) reads like the other reference readers:
+		// comments between the tokens, a signed generation, a generation of more than six digits,
+		// white space and comments longer than 64 bytes.  A failure of an "osrc" case is reported
+		// under its own class key (regression detector; the key is not a known finding).
 		wsp := func() string {
 			n := 1 + r.Intn(3)
 			b := make([]byte, n)
@@ -225,15 +228,31 @@ func hisCase(mode string, seed uint64, stat func(string)) *hisFile {
 		gen := Pick(r, []string{"0", "0", "00", "000000", "00000"})
 		w1, w2 := wsp(), wsp()
 		if parts[0] == "osrc" {
-			switch r.Intn(4) {
+			long := func() string {
+				n := 60 + r.Intn(90)
+				if r.P(1, 8) {
+					n = 1000 + r.Intn(200) // across a refill of the scanner's buffer
+				}
+				if r.P(1, 2) {
+					return strings.Repeat(string([]byte{Pick(r, hisWS)}), n)
+				}
+				return "%" + strings.Repeat(Pick(r, []string{"c", " ", "R", "0 R "}), n) + Pick(r, []string{"\n", "\r", "\r\n"})
+			}
+			switch r.Intn(7) {
 			case 0:
 				w1 = " %c\n" + Pick(r, []string{"", " "})
 			case 1:
 				w2 = "%x\r"
 			case 2:
 				gen = "+0"
+			case 3:
+				gen = "0000000" + Pick(r, []string{"", "000000000000000000"})
+			case 4:
+				w1 = long()
+			case 5:
+				w2 = long()
 			default:
-				gen = "0000000"
+				w1, w2 = long(), long()
 			}
 		}
 		text := num + w1 + gen + w2 + "R" + Pick(r, []string{"", " ", "\n", "\x00"})
@@ -260,10 +279,10 @@ func hisCase(mode string, seed uint64, stat func(string)) *hisFile {
 	panic("his: unknown case mode " + mode)
 }
 
-// edge cases of the `n g R` look-ahead for object-stream members (reader.go:referenceTail).
-// `denotes` is the value the member has: a conforming member that is written as a reference
-// denotes that reference; for the non-conforming texts it is what the library documents
-// (the integer), and only the byte-level model is compared with the code.
+// edge cases of the `n g R` look-ahead for object-stream members (scanner.go:readReferenceTail,
+// library HEAD 7ec872d).  `denotes` is the value the member has: a conforming member that is
+// written as a reference denotes that reference; for the non-conforming texts it is what the
+// library documents, and only the byte-level model is compared with the code.
 type hisOsrMember struct {
 	text    string
 	denotes pdf.Object
@@ -282,8 +301,8 @@ var hisOsrVariants = []struct {
 	{false, []hisOsrMember{{"2 0", pdf.Integer(2), false}}},
 	{true, []hisOsrMember{{"2", pdf.Integer(2), false}}},
 	{false, []hisOsrMember{{"2 65536 R", pdf.Integer(2), false}}},
-	{false, []hisOsrMember{{"2 0000000 R", pdf.Integer(2), false}}},
-	// "2 0 R" directly followed by the next member (the window ends at its offset)
+	{true, []hisOsrMember{{"2 0000000 R", pdf.NewReference(2, 0), false}}},
+	// "2 0 R" directly followed by the next member (the look-ahead ends at its offset)
 	{true, []hisOsrMember{{"2 0 R", pdf.NewReference(2, 0), false}, {"/Next", pdf.Name("Next"), true}}},
 	{true, []hisOsrMember{{"2 0 R", pdf.NewReference(2, 0), false}, {"57", pdf.Integer(57), true}}},
 	{true, []hisOsrMember{{"2 0 R", pdf.NewReference(2, 0), false}, {"(s)", pdf.String("s"), false}}},
@@ -292,6 +311,22 @@ var hisOsrVariants = []struct {
 	{false, []hisOsrMember{{"2 ", pdf.Integer(2), false}, {"0 R", pdf.Integer(0), true}}},
 	{true, []hisOsrMember{{"2 ", pdf.Integer(2), false}, {"0 ", pdf.Integer(0), true}}},
 	{true, []hisOsrMember{{"2\n", pdf.Integer(2), false}, {"16 0 R", pdf.NewReference(16, 0), true}}},
+	// 15.. : the spellings of 7ec872d
+	{true, []hisOsrMember{{"2 %c\n 0 R", pdf.NewReference(2, 0), false}}},
+	{true, []hisOsrMember{{"2 0%c\rR", pdf.NewReference(2, 0), false}}},
+	{true, []hisOsrMember{{"2 +0 R", pdf.NewReference(2, 0), false}}},
+	{false, []hisOsrMember{{"2 -0 R", pdf.NewReference(2, 0), false}}},
+	{false, []hisOsrMember{{"2 0R", pdf.NewReference(2, 0), false}}},
+	{false, []hisOsrMember{{"2 R", pdf.Integer(2), false}}},
+	{false, []hisOsrMember{{"2 -1 R", pdf.Integer(2), false}}},
+	{false, []hisOsrMember{{"2 0 %c", pdf.Integer(2), true}}},
+	// no window: 70 blanks, comments of more than 64 bytes, white space across a buffer refill
+	{true, []hisOsrMember{{"2" + strings.Repeat(" ", 70) + "0" + strings.Repeat(" ", 70) + "R", pdf.NewReference(2, 0), false}}},
+	{true, []hisOsrMember{{"2 %" + strings.Repeat("c", 80) + "\n0 %" + strings.Repeat("0 R ", 30) + "\rR", pdf.NewReference(2, 0), false}}},
+	{true, []hisOsrMember{{"2" + strings.Repeat("\n", 1100) + "0 R", pdf.NewReference(2, 0), false}}},
+	{true, []hisOsrMember{{"2 0" + strings.Repeat(" ", 1100) + "R", pdf.NewReference(2, 0), false}, {"57", pdf.Integer(57), true}}},
+	// the `R` lies behind the start of the next member: the long tail belongs to that member
+	{false, []hisOsrMember{{"2" + strings.Repeat(" ", 70), pdf.Integer(2), true}, {"0 R", pdf.Integer(0), true}}},
 }
 
 // ---- the implementation's answers ----
@@ -754,7 +789,8 @@ func hisStreamPlan(r *Rand) *hisPlan {
 				a.LenMode = 2
 			case 3, 4:
 				a.LenMode = 3
-				a.WrongLen = Pick(r, []int{len(body) - 1, len(body) + 3, 0, 1, len(body) / 2, len(body) * 2, 1 << 30, -1, -len(body)})
+				a.WrongLen = Pick(r, []int{len(body) - 1, len(body) + 3, 0, 1, len(body) / 2, len(body) * 2, 1 << 30, -1, -len(body),
+					math.MaxInt64, math.MaxInt64 - 1, math.MaxInt64 - 10 - r.Intn(2000), 1 << 62}) // the last four: bfd427f
 				if r.Bool() {
 					a.WrongLen = r.Intn(len(body) + 40)
 				}
